@@ -393,6 +393,10 @@ impl Scope {
         let mut flags = BindingFlags::MUTABLE;
         flags.set(BindingFlags::LEX, !function_scope);
         flags.set(BindingFlags::ESCAPES, self.is_global());
+        #[cfg(boa_verif)]
+        if verif::force_escape() {
+            flags.insert(BindingFlags::ESCAPES);
+        }
         bindings.push(Binding {
             name: name.clone(),
             index: binding_index,
@@ -417,6 +421,10 @@ impl Scope {
         let mut flags = BindingFlags::LEX;
         flags.set(BindingFlags::STRICT, strict);
         flags.set(BindingFlags::ESCAPES, self.is_global());
+        #[cfg(boa_verif)]
+        if verif::force_escape() {
+            flags.insert(BindingFlags::ESCAPES);
+        }
         bindings.push(Binding {
             name,
             index: binding_index,
@@ -842,4 +850,16 @@ impl<'a> arbitrary::Arbitrary<'a> for FunctionScopes {
             requires_function_scope: false,
         })
     }
+}
+
+/// Verification hooks (only with `--cfg boa_verif`).
+#[cfg(boa_verif)]
+pub mod verif {
+    use std::cell::Cell;
+    thread_local! { static FORCE_ESCAPE: Cell<bool> = const { Cell::new(false) }; }
+    /// Force every binding created from now on to live in an environment.
+    pub fn set_force_escape(v: bool) { FORCE_ESCAPE.with(|c| c.set(v)); }
+    /// Is force-escape on?
+    #[must_use]
+    pub fn force_escape() -> bool { FORCE_ESCAPE.with(Cell::get) }
 }
